@@ -9,10 +9,10 @@ from pfxgen import Universe, SetSpec, fmt_rec_args, parse_rec_str, rec_str, hexa
 
 PROPS = {
     "C01": {
-        "modules": ["RtrProps.C01"],
+        "modules": ["RtrProps.C01", "RtrProps.C01b"],
         "theorems": ["Rtr.C01.validate_state", "Rtr.C01.validate_state_table", "Rtr.C01.validate_reasons",
                      "Rtr.C01.wf_reachable", "Rtr.C01.depth_le_len", "Rtr.C01.validate_defined",
-                     "Rtr.C01.bits_link4", "Rtr.C01.bits_cover4"],
+                     "Rtr.C01.bits_link4", "Rtr.C01.bits_cover4", "Rtr.C01.bits_link6", "Rtr.C01.bits_cover6"],
     },
     "C02": {
         "modules": ["RtrProps.C02"],
@@ -20,8 +20,10 @@ PROPS = {
                      "Rtr.C02.forEach_enumerates", "Rtr.C02.history_refines"],
     },
     "C09": {
-        "modules": ["RtrProps.C09"],
-        "theorems": ["Rtr.C09.log_replays", "Rtr.C09.log_exact", "Rtr.C09.step_logOK", "Rtr.C09.free_log"],
+        "modules": ["RtrProps.C09", "RtrProps.C09b"],
+        "theorems": ["Rtr.C09.log_replays", "Rtr.C09.log_exact", "Rtr.C09.step_logOK", "Rtr.C09.free_log",
+                     "Rtr.C09.notifyDiff_net", "Rtr.C09.notifyDiff_logOK", "Rtr.C09.reload_log_replays",
+                     "Rtr.C09.log_replays_reload"],
     },
 }
 
